@@ -139,8 +139,23 @@ static void blk_crafted_gcm(void) {
 		if (r == 1 && t == 0) vh_viol("C06:crafted-tls13:record-without-a-content-type-accepted", "\"zeros\":%zu,\"reported_type\":%d,\"outlen\":%zu", ZL[z], rt, ol);
 		free(in); free(out); }
 }
+/* the fixed-size stores of the connection object filled through tls_init: trust lists and own chains of 1..12 certificates (about 0.4 .. 5 kilo-octets, so the
+   2048- and 4096-octet marks are crossed): whatever tls_init answers, no length recorded in the connection exceeds the array it describes, what it accepted is the
+   configured bytes, and (heap-allocated object, ASan) nothing is written behind the object */
+static void blk_ctx_capacity(void) {
+	if (!vh_block_begin("connection-store-capacities")) return; creds_init(); static uint8_t many[8000]; size_t off[14]; size_t n = 0; off[0] = 0;
+	for (int i = 0; i < 13; i++) { cert_spec u; char cn[8]; snprintf(cn, sizeof cn, "U%d", i); spec_ca(&u, cn, -1); size_t l = 0; venv_reset(700 + i); if (make_cert(&u, &CK[9], &CK[9], cn, many + n, &l) != 1) vh_harness_error("cert"); n += l; off[i + 1] = n; }
+	for (int proto = 0; proto < 3; proto++) for (int role = 0; role < 2; role++) for (int which = 0; which < 2; which++) for (int cnt = 1; cnt <= 13; cnt++) { if (!vh_next()) continue; static const int PR[3] = { TLS_protocol_tlcp, TLS_protocol_tls12, TLS_protocol_tls13 };
+		TLS_CTX ctx; memset(&ctx, 0, sizeof ctx); ctx.protocol = PR[proto]; ctx.is_client = role; ctx.cipher_suites[0] = proto == 0 ? TLS_cipher_ecc_sm4_cbc_sm3 : proto == 1 ? TLS_cipher_ecdhe_sm4_cbc_sm3 : TLS_cipher_sm4_gcm_sm3; ctx.cipher_suites_cnt = 1; ctx.verify_depth = 4; ctx.quiet = 1;
+		uint8_t *list = (uint8_t *)malloc(off[cnt]); memcpy(list, many, off[cnt]); if (which == 0) { ctx.cacerts = list; ctx.cacertslen = off[cnt]; if (!role) { ctx.certs = many; ctx.certslen = off[1]; ctx.signkey = CK[9]; ctx.kenckey = CK[9]; } } else { ctx.certs = list; ctx.certslen = off[cnt]; ctx.signkey = CK[9]; ctx.kenckey = CK[9]; }
+		TLS_CONNECT *conn = (TLS_CONNECT *)malloc(sizeof *conn); memset(conn, 0xA5, sizeof *conn); int r = tls_init(conn, &ctx); vh_evals++; vh_nontriv++; char key[160]; const char *wn = which ? "own-chain" : "trust-list";
+		if (r == 1) { size_t cl = conn->ca_certs_len, sl = conn->server_certs_len, kl = conn->client_certs_len;
+			if (cl > sizeof conn->ca_certs || sl > sizeof conn->server_certs || kl > sizeof conn->client_certs) { snprintf(key, sizeof key, "C06:connection-store:%s-longer-than-its-array-accepted", wn); vh_viol(key, "\"configured_octets\":%zu,\"certificates\":%d,\"ca_certs_len\":%zu,\"server_certs_len\":%zu,\"client_certs_len\":%zu", off[cnt], cnt, cl, sl, kl); }
+			else if (which == 0 && (cl != off[cnt] || memcmp(conn->ca_certs, many, cl))) { snprintf(key, sizeof key, "C06:connection-store:trust-list-differs-from-the-configured-one"); vh_viol(key, "\"configured_octets\":%zu,\"stored\":%zu", off[cnt], cl); } }
+		free(conn); free(list); if (cnt == 1 || cnt == 5 || cnt == 13) vh_sample("{\"block\":\"connection-store-capacities\",\"which\":\"%s\",\"octets\":%zu,\"tls_init\":%d}", wn, off[cnt], r); }
+}
 static void blk_cross(void) { if (!vh_block_begin("cross-type")) return; for (int i = 0; i < NSEEDS; i++) for (int j = 0; j < NSEEDS; j++) { if (SEEDS[j].c == SEEDS[i].c) continue; int dup = 0; for (int k = 0; k < j; k++) if (SEEDS[k].c == SEEDS[j].c) dup = 1; if (dup) continue; if (!vh_next()) continue; feed(&SEEDS[j], SEEDS[i].d, SEEDS[i].n); } }
-static void body(void) { for (int i = 0; i < NSEEDS; i++) { char bn[64]; snprintf(bn, sizeof bn, "seed-%s", SEEDS[i].name); if (!vh_block_begin(bn)) continue; if (vh_deadline_hit()) { vh_capped = 1; continue; } mutate_seed(&SEEDS[i]); vh_sample("{\"seed\":\"%s\",\"bytes\":%zu,\"der\":%d}", SEEDS[i].name, SEEDS[i].n, SEEDS[i].der); } blk_capacity(); blk_crafted_cbc(); blk_crafted_gcm(); blk_cross(); }
+static void body(void) { for (int i = 0; i < NSEEDS; i++) { char bn[64]; snprintf(bn, sizeof bn, "seed-%s", SEEDS[i].name); if (!vh_block_begin(bn)) continue; if (vh_deadline_hit()) { vh_capped = 1; continue; } mutate_seed(&SEEDS[i]); vh_sample("{\"seed\":\"%s\",\"bytes\":%zu,\"der\":%d}", SEEDS[i].name, SEEDS[i].n, SEEDS[i].der); } blk_capacity(); blk_crafted_cbc(); blk_crafted_gcm(); blk_ctx_capacity(); blk_cross(); }
 /* ---------------- seeds ---------------- */
 #include "vnet.h"
 #include "tlsh.h"
